@@ -541,7 +541,7 @@ def replay_text(ops, upto):
         op_line(o).replace("\\", "\\\\") for o in ops[:upto + 1])
 
 
-def run_oracle(ctx, index, outs, max_report=12):
+def run_oracle(ctx, index, outs, max_report=30):
     nfail, seen = 0, {}
     for start, ops in index:
         o = outs[start:start + len(ops)]
